@@ -128,11 +128,14 @@ func (i *interpreter) global(g *ssa.Global) *value {
 				return &cell
 			}
 			if gm, ok := globalModels[g.Pkg.Pkg.Path()+"."+g.Name()]; ok {
-				cell := gm()
+				cell := gm(i, g)
 				i.globals[g] = &cell
 				return &cell
 			}
-			unsupported("global %s needs the initialiser of package %s, which is not on the init list", g.Name(), g.Pkg.Pkg.Path())
+			// poisoned: taking the address is fine, reading the content is not
+			var cell value = poisoned{g.Pkg.Pkg.Path() + "." + g.Name()}
+			i.globals[g] = &cell
+			return &cell
 		}
 	}
 	cell := zero(mustDeref(g.Type()))
@@ -276,6 +279,15 @@ func (fr *frame) runDefers() {
 // lookupMethod returns the method set for type typ.
 func lookupMethod(i *interpreter, typ types.Type, meth *types.Func) *ssa.Function {
 	return i.prog.LookupMethod(typ, meth.Pkg(), meth.Name())
+}
+
+// poisoned is the content of a global whose package initialiser was not run.
+type poisoned struct{ name string }
+
+func checkPoison(p *value) {
+	if b, ok := (*p).(poisoned); ok {
+		unsupported("global %s is written by its package initialiser, which is not on the init list", b.name)
+	}
 }
 
 func nilDeref() {
@@ -458,6 +470,7 @@ func visitInstr(fr *frame, instr ssa.Instruction) continuation {
 		if p == nil {
 			nilDeref()
 		}
+		checkPoison(p)
 		fr.env[instr] = &(*p).(structure)[instr.Field]
 
 	case *ssa.Field:
@@ -473,6 +486,7 @@ func visitInstr(fr *frame, instr ssa.Instruction) continuation {
 			if x == nil {
 				nilDeref()
 			}
+			checkPoison(x)
 			a := (*x).(array)
 			idx := i.index(fr.get(instr.Index), len(a))
 			fr.env[instr] = &a[idx]
